@@ -243,4 +243,73 @@ example : DepOrdered (α := ℚ)
   · intro s; simp [Holds, vecGet]
   · intro h hh; simp at hh
 
+/-! ### The delay+volume loop: rule steps are volume ticks -/
+
+theorem dvApply_fields (g : Gen σ α) (m : SimModel α) (vm : VolModel α) (times : List α) (s : LoopState σ α)
+    (d : DVDecision σ α) :
+    (dvApply g m vm times s d).ruleStep = d.rstep ∧ (dvApply g m vm times s d).nextTick = d.nextTick
+      ∧ (dvApply g m vm times s d).t = d.tNew
+      ∧ ∃ k, (dvApply g m vm times s d).rows = s.rows ++ replicateRow k d.x := by
+  unfold dvApply
+  simp only
+  split_ifs <;> (try split) <;> (try split_ifs) <;> exact ⟨rfl, rfl, rfl, _, rfl⟩
+
+theorem dv_rstep_iff_tick (g : Gen σ α) (m : SimModel α) (times : List α) (s : LoopState σ α) :
+    (dvDecide g m times s).rstep = true ↔ (dvDecide g m times s).stepType = 1 := by
+  unfold dvDecide
+  simp only
+  generalize dvPropose g m times s = pr
+  cases decide (pr.proposed < s.nextTick ∧ pr.proposed < s.q.next) <;> cases decide (s.nextTick < s.q.next) <;> simp
+  all_goals split_ifs <;> simp
+
+theorem dv_tick_clock (g : Gen σ α) (m : SimModel α) (times : List α) (s : LoopState σ α)
+    (h : (dvDecide g m times s).rstep = true) :
+    (dvDecide g m times s).tNew = s.nextTick ∧ (dvDecide g m times s).nextTick = s.nextTick + m.dt := by
+  unfold dvDecide at h ⊢
+  simp only at h ⊢
+  generalize dvPropose g m times s = pr at h ⊢
+  revert h
+  cases decide (pr.proposed < s.nextTick ∧ pr.proposed < s.q.next) <;> cases decide (s.nextTick < s.q.next) <;> simp
+
+theorem dv_no_tick_clock (g : Gen σ α) (m : SimModel α) (times : List α) (s : LoopState σ α)
+    (h : (dvDecide g m times s).rstep = false) : (dvDecide g m times s).nextTick = s.nextTick := by
+  unfold dvDecide at h ⊢
+  simp only at h ⊢
+  generalize dvPropose g m times s = pr at h ⊢
+  revert h
+  cases decide (pr.proposed < s.nextTick ∧ pr.proposed < s.q.next) <;> cases decide (s.nextTick < s.q.next) <;> simp
+
+/-- **delay+volume: a `dt` rule (or ODE rule) runs exactly once per volume tick, however many reactions fire**: an
+iteration leaves the rule-step flag set only when it was a tick — time moved to the tick and the tick clock advanced by
+one `dt` -/
+theorem delayVolume_ruleStep_tick (g : Gen σ α) (m : SimModel α) (vm : VolModel α) (times : List α) (s : LoopState σ α)
+    (h : (delayVolumeIter g m vm times s).ruleStep = true) :
+    (delayVolumeIter g m vm times s).t = s.nextTick ∧ (delayVolumeIter g m vm times s).nextTick = s.nextTick + m.dt := by
+  unfold delayVolumeIter at h ⊢
+  obtain ⟨h1, h2, h3, _⟩ := dvApply_fields g m vm times s (dvDecide g m times s)
+  rw [h1] at h
+  rw [h2, h3]
+  exact dv_tick_clock g m times s h
+
+/-- … and any other iteration (a firing, a delivery from the queue, a move to the requested time) leaves the flag unset
+and the tick clock where it was. -/
+theorem delayVolume_no_ruleStep (g : Gen σ α) (m : SimModel α) (vm : VolModel α) (times : List α) (s : LoopState σ α)
+    (h : (delayVolumeIter g m vm times s).ruleStep = false) :
+    (delayVolumeIter g m vm times s).nextTick = s.nextTick := by
+  unfold delayVolumeIter at h ⊢
+  obtain ⟨h1, h2, _, _⟩ := dvApply_fields g m vm times s (dvDecide g m times s)
+  rw [h1] at h
+  rw [h2]
+  exact dv_no_tick_clock g m times s h
+
+/-- the rows a delay+volume iteration writes are the state after the rule pass of that iteration (rules see the current
+volume), before any firing or delivery. -/
+theorem delayVolume_rows_see_ruled_state (g : Gen σ α) (m : SimModel α) (vm : VolModel α) (times : List α)
+    (s : LoopState σ α) :
+    ∃ k, (delayVolumeIter g m vm times s).rows
+        = s.rows ++ replicateRow k (applyRules m.rules s.x s.p s.vol s.t m.dt s.ruleStep).1 := by
+  unfold delayVolumeIter
+  obtain ⟨_, _, _, k, hk⟩ := dvApply_fields g m vm times s (dvDecide g m times s)
+  exact ⟨k, hk⟩
+
 end Bioscrape.C09
